@@ -184,7 +184,7 @@ func verifTrigger(sa flows.SessionAssets, contact *flows.Contact) flows.Trigger 
 // trigger, arbitrary router-test outcomes, and every history of up to H
 // resumes of every type: the invariant holds after every call that returns
 // without error.
-// cover: waiting, completed, failed, waiting-with-active-parent, multi-step-path, step-limit, resume-rejected, resumed, child-run, terminal-enter
+// cover: waiting, completed, failed, waiting-with-active-parent, multi-step-path, step-limit, resume-rejected, resumed, child-run, terminal-enter, resume-limit, resume-limit-with-child-run
 func VerifC01_Unroll() {
 	counts, hist, maxSteps := []int{2, 1}, 1, 3
 	if zzverif.Thorough() {
@@ -196,7 +196,13 @@ func VerifC01_Unroll() {
 	sa := verifNewAssets()
 	verifSymbolicFlows(sa, counts)
 	verifLazyOutcomes = true
-	eng := verifEngine(maxSteps, 10)
+	// the resume limit: out of reach, or hit by the first (thorough: also the second) resume
+	limits := []int{10, 0}
+	if zzverif.Thorough() {
+		limits = []int{10, 0, 1}
+	}
+	maxResumes := limits[zzverif.Choice("max-resumes", len(limits))]
+	eng := verifEngine(maxSteps, maxResumes)
 	contact := verifContact(sa)
 	sess, sp, err := eng.NewSession(sa, verifTrigger(sa, contact))
 	if err != nil {
@@ -216,6 +222,12 @@ func VerifC01_Unroll() {
 			continue
 		}
 		zzverif.Cover("resumed")
+		if h >= maxResumes {
+			zzverif.Cover("resume-limit")
+			if len(s.runs) > 1 {
+				zzverif.Cover("resume-limit-with-child-run")
+			}
+		}
 		verifCheckC01(s, sp, before)
 		verifCoverShape(s, sp)
 	}
